@@ -50,6 +50,9 @@ func c27NetCodec(wantVersion, wantKind uint8) *kit.Codec {
 			return ""
 		},
 		StrictStability: true,
+		// "CheckHeader validates a cluster version/kind header and returns the payload": the result
+		// is the tail of the caller's frame by design (callers decode it synchronously)
+		AliasByContract: "CheckHeader is documented to return the payload of the caller's frame (a sub-slice); pkg/cluster/control decodes it synchronously",
 		Values:          values,
 		Headers:         [][]byte{{wantVersion}, {wantVersion, wantKind}},
 	}
